@@ -344,6 +344,16 @@ def run_driver(binpath, scen_file, trace_file, extra=None, timeout=900, env=None
         raise Machinery("driver %s timed out after %ds" % (os.path.basename(binpath), timeout))
     if p.returncode != 0:
         raise Machinery("driver %s failed rc=%d:\n%s" % (os.path.basename(binpath), p.returncode, p.stdout[-3000:]))
+    # goroutine dumps of children that stalled are kept for diagnosis (the scratch directory is not)
+    import glob
+    for f in glob.glob(trace_file + ".stall*.log"):
+        try:
+            dst = os.path.join(os.environ.get("VERIF_REPLAY_DIR") or os.path.join(VERIF, "replays"), "stall-%s-%d-%s" % (os.path.basename(binpath), int(time.time()), os.path.basename(f)))
+            os.makedirs(os.path.dirname(dst), exist_ok=True)
+            shutil.copyfile(f, dst)
+            log("NOTE a driver child stalled; its goroutine dump is in %s" % dst)
+        except OSError:
+            pass
     return p.stdout, time.time() - t
 
 
